@@ -408,6 +408,11 @@ def judge_grad(case, v):
     if not isinstance(impl, Grad):
         v.fail("gradient-lost", case["t"], {"A": A})
         return
+    if abs(adet(impl.M)) < 1e-3 * max(1.0, anorm(impl.M)) ** 2:
+        # the emitted residual is (nearly) singular once its entries are F2DOT14: with A this close to singular that is the
+        # format's precision, and colour "at corresponding points" is not defined on a collapsed plane
+        v.discard = "residual transform singular at F2DOT14 precision"
+        return
     bud = Budget("colr", 1000)
     worst = 0.0
     n_ok = 0
